@@ -287,7 +287,15 @@ func decideStream(sum *Summary, model *vd.Model, n int, seed int64) {
 		obs, cerr := observeDecisions(c)
 		if cerr != "" {
 			sum.Evaluations++
-			sum.Mismatches = append(sum.Mismatches, Mismatch{Case: fmt.Sprint(i), Request: "decide: " + string(cj), Note: cerr})
+			m := Mismatch{Case: fmt.Sprint(i), Request: "decide: " + string(cj), Note: cerr}
+			// the child could not work under its own filter: look for the event the compiled program
+			// decides wrongly (the implementation's program against the specification, in the model)
+			if goReply, _ := c.Policy.Compile(); strings.HasPrefix(goReply, "OK ") {
+				if o, err := model.Ask("X x86_64 le " + c.Policy.Body() + " " + strings.TrimPrefix(goReply, "OK ")); err == nil && strings.HasPrefix(o, "CEX ") {
+					m.FailingInput = "the compiled program decides an event differently from the policy (event: nr arch a0..a5): " + o
+				}
+			}
+			sum.Mismatches = append(sum.Mismatches, m)
 			if len(sum.Mismatches) >= 5 {
 				return
 			}
